@@ -40,6 +40,15 @@ RULE = ("TLEs: the repo's test TLEs and tlegen's real near-earth sets (own deriv
         "them with the largest eccentricity a 225-minute period allows at that perigee less 0-0.06 (what the library refuses as "
         "deep space is dropped: e <= ~0.46 remains); queries uniform and 1 s-10 min after every kind of equator crossing, each in "
         "one of the 7 representations; 'no other node' against the 5 s scan of z, extended backwards to a result older than the window. "
+        "Follow-up queries (sequences built from the check's own answers): every distinct node tick t_n returned to the oracle's "
+        "last-node queries is asked again, on one object per set, at t_n + k*10 min exactly (k = 1..9), at t_n and at t_n -/+ 1 us, "
+        "in rotating representations that hold the instant exactly (naive/aware/us/ns; ns for a sub-microsecond tick): the first "
+        "ticks of a set with all twelve, the others with one multiple and (every second) one instant at the node, in rotation. "
+        "Slow family (every clause, own population after the others): mean motion from the smallest the library takes as near-earth "
+        "(Brouwer period 225 min less 1e-7..3 min) to 9 rev/day, e 1e-5..2e-3 at inclination 3-177 deg or e 0.01-0.25 at |sin i| > 0.6; "
+        "last-node queries uniform and 1 s-50 min before each trajectory crossing (scans of up to 23 steps). An exception raised "
+        "by get_last_an_time / get_orbit_number / get_equatorial_crossing_time itself (innermost frame) is a violation whatever its "
+        "type; only exceptions from inside the propagator count as refusals. "
         "distinct = (tle, representation, ticks)")
 ASSUMPTIONS = [
     "the count clause is judged where the expected number is >= 0 (for negative numbers 'truncated value' and 'crossing count' contradict each other)",
@@ -838,6 +847,10 @@ def corr_last_an(ctx, drv, sat, reps, batch, cached=None):
                 guarded(lambda: o.get_orbit_number(o.tle.epoch))
             except Timeout:
                 continue        # reported by corr_numbers
+            except Exception as e:  # noqa
+                if is_refusal(e):
+                    raise
+                continue        # reported by corr_numbers
         rec = Recorder(o)
         val = rep_value(rep)
         case = dict(sat.base(), rep=rep, op="last_an", check="nonterminating", after_orbit_number=use_cache)
@@ -1093,9 +1106,64 @@ def emit(ctx, sat, rep, found, site, extra_case=None):
         case.update(extra)
         if extra_case:
             case.update(extra_case)
+        if kind == "raises" and site.endswith("get_orbit_number"):
+            case["check"] = "raises_number"             # replay asks get_orbit_number, not the last-node query
+        elif kind == "raises" and site.endswith("get_equatorial_crossing_time"):
+            case["check"] = "raises_crossing"
         if os.environ.get("TZ") and "tz" not in case:
             case["process_tz"] = os.environ["TZ"]       # the zone the whole run was made in (harness/check.py)
         ctx.violation(kind, case, observed, required, site=site)
+
+
+# representations that hold a whole-microsecond instant exactly (a returned node time carries microseconds, or
+# nanoseconds when the query was a datetime64[ns])
+EXACT_US = ["naive", "us", "aware", "ns"]
+FOLLOW_STEPS = [(k, k * 600 * 10 ** 9) for k in range(1, 10)] + [(0, 0), ("-1us", -1000), ("+1us", 1000)]
+
+
+def follow_ups(ctx, sat, res):
+    """Queries derived from the check's own previous answer (a program that walks through the nodes): for a node time
+    t_n that get_last_an_time has just returned, the last-node clauses at t_n + k * 10 min EXACTLY (k = 1..9: the
+    backward 10-minute scan then samples t_n itself, within 1 m of the node on either side), at t_n and at t_n -/+ 1 us,
+    each in one of the representations that hold the instant exactly, in rotation (all four for a microsecond tick,
+    datetime64[ns] for a result with a sub-microsecond part).  One object per element set answers all of them, in
+    sequence.  Every distinct returned tick is followed up: the first ones of a set with all twelve queries, the
+    others with one of the nine multiples and (every second one) one of the three instants at the node, in rotation.  Instants outside
+    [epoch - 1 d, epoch + 5 d] are not asked.  `res`: what judge_last_an put into `result`."""
+    if not res:
+        return
+    r_ns = int(res[0][0])
+    st = sat.__dict__.setdefault("_follow", {"seen": set(), "o": None})
+    if r_ns in st["seen"]:
+        return
+    st["seen"].add(r_ns)
+    if st["o"] is None:
+        st["o"] = sat.fresh()
+    rot = ctx.__dict__.setdefault("c11_rot", [0, 0])
+    jobs = FOLLOW_STEPS
+    if len(st["seen"]) > ctx.size(4, 12):
+        jobs = [FOLLOW_STEPS[rot[0] % 9]] + ([FOLLOW_STEPS[9 + (rot[0] // 2) % 3]] if rot[0] % 2 == 0 else [])
+        rot[0] += 1
+    lo, hi = (sat.e_us - DAY_US) * 1000, (sat.e_us + 5 * DAY_US) * 1000
+    rot[1] += 1
+    for (k, d_ns) in jobs:
+        ns = r_ns + d_ns
+        if not lo <= ns <= hi:
+            continue
+        kinds = EXACT_US if ns % 1000 == 0 else ["ns"]
+        kind = kinds[rot[1] % len(kinds)]
+        rot[1] += 1
+        if timed_out(ctx, kind):
+            continue
+        rep = make_rep(kind, ns)
+        found = judge_last_an(sat, rep, o=st["o"])
+        if any(f[0] == "nonterminating" for f in found):
+            timed_out(ctx, kind, note=True)
+        ctx.count("eval_oracle_last_an_followup")
+        ctx.bump("followup_step", str(k))
+        ctx.bump("followup_representation", kind)
+        ctx.distinct((sat.l1[2:7] + sat.l2[8:16], rep["kind"], rep["ticks"]))
+        emit(ctx, sat, rep, found, "Orbital.get_last_an_time", {"follow_up_of_ns": r_ns, "follow_up": k})
 
 
 def oracle_sat(ctx, sat, n_random, n_an, n_cross, all_crossings=True, n_after=16):
@@ -1145,12 +1213,14 @@ def oracle_sat(ctx, sat, n_random, n_an, n_cross, all_crossings=True, n_after=16
             rep = make_rep(kind, ns)
             if timed_out(ctx, kind):
                 continue
-            found = judge_last_an(sat, rep)
+            res = []
+            found = judge_last_an(sat, rep, result=res)
             if any(f[0] == "nonterminating" for f in found):
                 timed_out(ctx, kind, note=True)
             ctx.count("eval_oracle_last_an")
             ctx.bump("oracle_representation", kind)
             emit(ctx, sat, rep, found, "Orbital.get_last_an_time")
+            follow_ups(ctx, sat, res)
     # ... and on the object that has ALREADY answered get_orbit_number (`o`): queries shortly after true nodes of the
     # trajectory, where a stale answer (the node one revolution earlier) would be "another node between result and query"
     late = inside[inside >= e]
@@ -1160,11 +1230,13 @@ def oracle_sat(ctx, sat, n_random, n_an, n_cross, all_crossings=True, n_after=16
         rep = make_rep(r.choice(REPS), (int(c) + off_us) * 1000 + r.randrange(1000))
         if timed_out(ctx, rep["kind"]):
             continue
-        found = judge_last_an(sat, rep, o=o)
+        res = []
+        found = judge_last_an(sat, rep, o=o, result=res)
         if any(f[0] == "nonterminating" for f in found):
             timed_out(ctx, rep["kind"], note=True)
         ctx.count("eval_oracle_last_an_cached")
         emit(ctx, sat, rep, found, "Orbital.get_last_an_time", {"after_orbit_number": True})
+        follow_ups(ctx, sat, res)
     # equator crossing time
     p_us = int(DAY_US / sat.mm)
     for _ in range(n_cross):
@@ -1273,13 +1345,48 @@ def oracle_shortarc(ctx, sat, n_q):
             continue
         if timed_out(ctx, rep["kind"]):
             continue
-        found = judge_last_an(sat, rep, o=o)
+        res = []
+        found = judge_last_an(sat, rep, o=o, result=res)
         if any(f[0] == "nonterminating" for f in found):
             timed_out(ctx, rep["kind"], note=True)
         ctx.count("eval_oracle_last_an_shortarc")
         ctx.bump("oracle_representation", rep["kind"])
         ctx.distinct((sat.l1[2:7] + sat.l2[8:16], rep["kind"], rep["ticks"]))
         emit(ctx, sat, rep, found, "Orbital.get_last_an_time")
+        follow_ups(ctx, sat, res)
+
+
+def oracle_slow(ctx, sat, n_q):
+    """Last-node clauses on a slow near-earth set (a revolution is up to 22 steps of the backward scan), on fresh
+    objects: queries uniform over the window and 1 s - 50 min BEFORE the trajectory's own south-to-north crossings (the
+    last node is then nearly a whole revolution back: the longest scans in the domain), each in one of the 7
+    representations in rotation.  The orbit-number clauses, the cached-object queries, the crossing time and the
+    order of first use are judged by oracle_sat as for every other set."""
+    r = ctx.rng
+    e = sat.e_us
+    cs = sat.cs()
+    inside = cs[(cs >= e - DAY_US + 3000 * 10 ** 6) & (cs <= e + 5 * DAY_US)]
+    for i in range(n_q):
+        if i % 3 == 2 or not len(inside):
+            us = r.randrange(e - DAY_US, e + 5 * DAY_US)
+        else:
+            us = int(r.choice(list(inside))) - int(10 ** r.uniform(6, 9.477))
+        rep = make_rep(REPS[(i + i // 7) % 7], us * 1000 + r.randrange(1000))
+        if rep_ns(rep) < (e - DAY_US) * 1000:      # a coarse unit truncated the instant out of the window
+            continue
+        if timed_out(ctx, rep["kind"]):
+            continue
+        res = []
+        found = judge_last_an(sat, rep, result=res)
+        if any(f[0] == "nonterminating" for f in found):
+            timed_out(ctx, rep["kind"], note=True)
+        ctx.count("eval_oracle_last_an_slow")
+        ctx.bump("oracle_representation", rep["kind"])
+        if res:
+            ctx.bump("slow_scan_steps", str(int((rep_ns(rep) - res[0][0]) // (600 * 10 ** 9)) + 1))
+        ctx.distinct((sat.l1[2:7] + sat.l2[8:16], rep["kind"], rep["ticks"]))
+        emit(ctx, sat, rep, found, "Orbital.get_last_an_time")
+        follow_ups(ctx, sat, res)
 
 
 def oracle(ctx):
@@ -1317,6 +1424,26 @@ def oracle(ctx):
         if i == 0:
             ctx.sample({"line1": sat.l1, "line2": sat.l2, "family": sat.family, "eccentricity": sat.ecc,
                         "arg_perigee": float(sat._ref.tle.arg_perigee), "crossings": int(len(sat.cs()))})
+    # the slow end of the near-earth domain (mean motion from the smallest the library accepts to 9 rev/day): every clause
+    for i in range(ctx.size(12, 60)):
+        t = gen_tle(ctx, "slow")
+        if not t:
+            continue
+        sat = Sat(*t)
+        ctx.bump("oracle_family", sat.family)
+        ctx.bump("slow_period_min", "%d" % (int(1440.0 / sat.mm / 5) * 5))
+        ctx.bump("slow_eccentricity", "%.2f" % sat.ecc)
+        try:
+            oracle_slow(ctx, sat, ctx.size(28, 84))
+            oracle_sat(ctx, sat, ctx.size(24, 120), ctx.size(2, 6), ctx.size(3, 8), all_crossings=True)
+        except Exception as e:  # noqa  propagator refusals inside the window are C13's subject
+            if not is_refusal(e):
+                raise
+            ctx.count("oracle_sets_skipped")
+            ctx.note("set skipped (%s): %s / %s" % (type(e).__name__, sat.l1, sat.l2))
+        if i == 0:
+            ctx.sample({"line1": sat.l1, "line2": sat.l2, "family": sat.family, "eccentricity": sat.ecc,
+                        "period_min": 1440.0 / sat.mm, "crossings": int(len(sat.cs()))})
 
 
 # ------------------------------------------------------------------------------------------------ known findings / replay
@@ -1410,8 +1537,8 @@ def replay(ctx, payload):
         found = judge_number(sat, sat.fresh(), rep)[0]
         found = [f for f in found if f[0] == "raises"]
     elif kind == "raises_crossing":
-        found = [f for f in judge_crossing(sat, sat.fresh(), case["tstart_us"], case["tend_us"], case["node"], case.get("rtol"), True)
-                 if f[0] == "raises"]
+        found = [f for f in judge_crossing(sat, sat.fresh(), case["tstart_us"], case["tend_us"], case["node"], case.get("rtol"),
+                                           case.get("bounds_kind") or True) if f[0] == "raises"]
     elif kind == "nonterminating_number":
         try:
             guarded(lambda: sat.fresh().get_orbit_number(rep_value(rep)))
